@@ -331,8 +331,8 @@ theorem cinv_iter_begin {s : St} {t : Tid} (hS : SInv s) (hC : CInv s) :
 
 theorem arriving_concl (pu : Purp) (k : Int) (prev : Nat) (pv : Option Nat) (cur : Nat) (fnd : Option Nat)
     (eq : Bool) : arriving (concl pu k prev pv cur fnd eq) = false := by
-  rcases concl_cases pu k prev pv cur fnd eq with ⟨r, -, hc⟩ | ⟨e, -, -, hc⟩ | ⟨j, e, -, -, hc⟩ | ⟨j, -, hc⟩ |
-    ⟨j, p, -, -, -, -, hc⟩ | ⟨j, p, -, -, hc⟩ | ⟨j, p, -, hc⟩ <;> rw [hc] <;> rfl
+  rcases concl_cases pu k prev pv cur fnd eq with ⟨r, -, hc⟩ | ⟨e, -, -, hc⟩ | ⟨j, e, -, -, -, hc⟩ | ⟨j, -, -, hc⟩ |
+    ⟨j, p, -, -, -, -, hc⟩ | ⟨j, p, -, -, -, hc⟩ | ⟨j, p, -, hc⟩ <;> rw [hc] <;> rfl
 
 set_option maxHeartbeats 4000000 in
 /-- Every atomic step preserves the iteration-progress invariant. -/
